@@ -40,7 +40,7 @@ MANIFEST = {
     'technique': 'Rocq/Coq proof (store invariant over operation histories, list induction, permutation) + '
                  'extraction-based differential testing with an independent interpreter as oracle',
 }
-BUDGET = {'quick': 75, 'thorough': 1500}
+BUDGET = {'quick': 75, 'thorough': 900}
 MISMATCH_BUDGET = 0.0
 ESCALATE_BUDGET = 60
 SEARCH_BUDGET = 90
@@ -623,7 +623,7 @@ def corpus():
 
 
 def run(ctx):
-    n_prog = {'quick': 700, 'thorough': 12000}[ctx.tier]
+    n_prog = {'quick': 500, 'thorough': 12000}[ctx.tier]
     pending = []
     for c in corpus():
         run_program(ctx, c, pending)
